@@ -138,8 +138,42 @@ def checkRstack (cfg : Cfg) (s : St) : Bool × St :=
 inductive FR where | in_ | out | rstack
   deriving DecidableEq, Repr
 
+/-- mcount_save_filter -/
+def saveFilt (f : Filt) : Filt :=
+  { f with svDepth := f.depth, svMaxDepth := f.maxDepth, svTime := f.time, svSize := f.size }
+
+/-- TRIGGER_FL_FILTER: count the hit and reset the depth -/
+def matchFilt (tr : Trigger) (f : Filt) : Filt :=
+  match tr.filter with
+  | some true => { f with inCount := f.inCount + 1, depth := 0 }
+  | some false => { f with outCount := f.outCount + 1, depth := 0 }
+  | none => f
+
+/-- the two early `return FILTER_OUT`s after the trigger was matched: opt-in
+    mode without an enclosing -F hit, and the location filter -/
+def earlyOut (cfg : Cfg) (tr : Trigger) (f0 : Filt) : Bool :=
+  (tr.filter.isNone && cfg.optIn && f0.inCount = 0) ||
+  (match tr.loc with
+   | some m => !m
+   | none => cfg.locIn)
+
+/-- depth= / time= / size= actions -/
+def trigFilt (tr : Trigger) (f : Filt) : Filt :=
+  let f2 : Filt := match tr.depth with
+    | some d => { f with depth := 0, maxDepth := d }
+    | none => f
+  { f2 with time := tr.time.getD f2.time, size := tr.size.getD f2.size }
+
+def depthLimit (cfg : Cfg) (tr : Trigger) (f0 : Filt) : Nat :=
+  match tr.depth with
+  | some d => d
+  | none => if f0.maxDepth = noMaxDepth then cfg.depthOpt else f0.maxDepth
+
+def trigEnabled (tr : Trigger) (en : Bool) : Bool :=
+  if tr.traceOff then false else if tr.traceOn then true else en
+
 /-- mcount_entry_filter_check; also returns the trigger that was matched
-    (`Trigger.none` when the function returned before matching). -/
+    (`{}` when the function returned before matching). -/
 def entryFilterCheck (cfg : Cfg) (s : St) (addr : Nat) : FR × St × Trigger :=
   let c := checkRstack cfg s
   if c.1 then (.rstack, c.2, {}) else
@@ -147,30 +181,14 @@ def entryFilterCheck (cfg : Cfg) (s : St) (addr : Nat) : FR × St × Trigger :=
   if cfg.fast then
     if cfg.minSize > 0 && cfg.fsize addr < cfg.minSize then (.out, s, {}) else (.in_, s, {})
   else
-  let maxDepth0 := if s.filt.maxDepth = noMaxDepth then cfg.depthOpt else s.filt.maxDepth
-  -- mcount_save_filter
-  let f0 : Filt := { s.filt with svDepth := s.filt.depth, svMaxDepth := s.filt.maxDepth,
-                                 svTime := s.filt.time, svSize := s.filt.size }
+  let f0 := saveFilt s.filt
   if f0.outCount > 0 then (.out, { s with filt := f0 }, {}) else
   let tr := cfg.trig addr
-  let f1 : Filt := match tr.filter with
-    | some true => { f0 with inCount := f0.inCount + 1, depth := 0 }
-    | some false => { f0 with outCount := f0.outCount + 1, depth := 0 }
-    | none => f0
-  if tr.filter.isNone && cfg.optIn && f0.inCount = 0 then (.out, { s with filt := f1 }, tr) else
-  let locOut := match tr.loc with
-    | some m => !m
-    | none => cfg.locIn
-  if locOut then (.out, { s with filt := f1 }, tr) else
-  let f2 : Filt := match tr.depth with
-    | some d => { f1 with depth := 0, maxDepth := d }
-    | none => f1
-  let maxDepth := match tr.depth with
-    | some d => d
-    | none => maxDepth0
-  let en := if tr.traceOff then false else if tr.traceOn then true else s.enabled
-  let f3 : Filt := { f2 with time := tr.time.getD f2.time, size := tr.size.getD f2.size }
-  if f3.depth ≥ maxDepth then (.out, { s with filt := f3, enabled := en }, tr)
+  let f1 := matchFilt tr f0
+  if earlyOut cfg tr f0 then (.out, { s with filt := f1 }, tr) else
+  let f3 := trigFilt tr f1
+  let en := trigEnabled tr s.enabled
+  if f3.depth ≥ depthLimit cfg tr f0 then (.out, { s with filt := f3, enabled := en }, tr)
   else (.in_, { s with filt := { f3 with depth := f3.depth + 1 }, enabled := en }, tr)
 
 /-- mcount_entry_filter_record on the frame just pushed (head of `frames`) -/
@@ -191,16 +209,13 @@ def entryFilterRecord (cfg : Cfg) (s : St) (tr : Trigger) : St :=
       let p := recordTrace (f1 :: rest)
       { s with frames := p.1, out := s.out ++ p.2, finished := true }
     else if nr then { s with frames := f1 :: rest } else
-    let s1 := { s with recordIdx := s.recordIdx + 1 }
-    let s2 :=
-      if !s.enabled then
-        let f2 := { f1 with disabled := true }
-        if s.enableCached then
-          let p := recordTrace (f2 :: rest)
-          { s1 with frames := p.1, out := s.out ++ p.2 }
-        else { s1 with frames := f2 :: rest }
-      else { s1 with frames := f1 :: rest }
-    if tr.traceOn || tr.traceOff then { s2 with enableCached := s.enabled } else s2
+    -- record_idx++; a frame entered while tracing is off is tagged DISABLED, and the
+    -- open frames are flushed if tracing was on until now (enable_cached)
+    let dis := !s.enabled
+    let f2 : Frame := { f1 with disabled := f1.disabled || dis }
+    let p := if dis && s.enableCached then recordTrace (f2 :: rest) else (f2 :: rest, [])
+    { s with recordIdx := s.recordIdx + 1, frames := p.1, out := s.out ++ p.2,
+             enableCached := if tr.traceOn || tr.traceOff then s.enabled else s.enableCached }
 
 /-- mcount_exit_filter_record on the top frame (its `endT` already set) -/
 def exitFilterRecord (cfg : Cfg) (s : St) : St :=
